@@ -563,9 +563,9 @@ R_FRAMES = "non-trivial = N >= 3 and >= 2 frames expected"
 R_ADAPT = "non-trivial = >= 3 scheduled times inside the range"
 
 SUBCHECKS = [
-    _sub("tracker_schedule_nojit", lambda: schedule_strategy("nojit"), check_history, "nojit", 1600, 25000, 4, R_SCHED),
+    _sub("tracker_schedule_nojit", lambda: schedule_strategy("nojit"), check_history, "nojit", 1600, 25000, 5, R_SCHED),
     _sub("storage_frame_count", frame_strategy, check_frames, "nojit", 1200, 15000, 3, R_FRAMES),
-    _sub("stop_handling_nojit", lambda: stop_strategy("nojit"), check_stop, "nojit", 1600, 25000, 4, R_STOP),
+    _sub("stop_handling_nojit", lambda: stop_strategy("nojit"), check_stop, "nojit", 1600, 25000, 5, R_STOP),
     _sub("adaptive_exact_times_nojit", lambda: adaptive_strategy("nojit", False), check_adaptive, "nojit",
          400, 5000, 2, R_ADAPT),
     _sub("adaptive_distinct_schedules", lambda: adaptive_strategy("nojit", True), check_adaptive, "nojit",
@@ -576,3 +576,5 @@ SUBCHECKS = [
     _sub("tracker_schedule_jit", lambda: schedule_strategy("jit"), check_history, "jit", 8, 150, 1, R_SCHED),
     _sub("stop_handling_jit", lambda: stop_strategy("jit"), check_stop, "jit", 8, 150, 1, R_STOP),
 ]
+# jit samples first: they are the long pole, the runner starts jobs in list order
+SUBCHECKS.sort(key=lambda sc_: sc_.mode != "jit")
